@@ -29,10 +29,17 @@ def split_frames(data):
 
 
 def decoder_rejects(frame):
+    """Can this frame be FULLY decoded?  The library's decoder, run in isolation, must accept it and consume all of it, and
+    its framing must be consistent (rawttlv.framing_ok: the decoders read sub-streams by length and would accept a structure
+    that announces more than it holds)."""
+    from . import rawttlv
+    if not rawttlv.framing_ok(bytes(frame)):
+        return True
     try:
         m = kmessages.RequestMessage()
-        m.read(kutils.BytearrayStream(frame))
-        return False
+        st = kutils.BytearrayStream(frame)
+        m.read(st)
+        return st.length() > 0
     except Exception:
         return True
 
